@@ -171,7 +171,9 @@ fn judge_thread(p: &Puppet, e: &Expect, cb: &[u8], stack_start: u64, stack_len: 
 /// 4 the target was stopped by job control (SIGTSTP) before the request; 5 stopped by SIGSTOP before the request;
 /// 6 the null-stack-pointer helper threads are created before the ordinary threads;
 /// 7 the kernel's pid counter wraps around between the first and the remaining threads, so that younger
-///   threads have SMALLER thread ids than an older one (the task directory is listed in creation order).
+///   threads have SMALLER thread ids than an older one (the task directory is listed in creation order);
+/// 8 the main thread has exited (pthread_exit: a zombie thread-group leader that cannot be attached) while the
+///   other threads live on; the first of them is blamed.
 fn run_regfiles(files: &[RegFile], null_sp_threads: usize) -> (Value, Vec<(String, String)>, u64) {
     run_regfiles_opt(files, null_sp_threads, 0)
 }
@@ -264,6 +266,21 @@ fn run_regfiles_opt(files: &[RegFile], null_sp_threads: usize, optmode: u8) -> (
             fails.push(("MACHINERY".into(), "the target did not stop before the request".into()));
         }
     }
+    if optmode == 8 {
+        let _ = p.cmd("leaderexit");
+        let dl = std::time::Instant::now() + std::time::Duration::from_secs(5);
+        let zombie = |pid: i32| std::fs::read_to_string(format!("/proc/{pid}/stat")).map(|s| s.rsplit(')').next().unwrap_or("").trim_start().starts_with('Z')).unwrap_or(false);
+        while std::time::Instant::now() < dl && !zombie(p.pid) {
+            std::thread::sleep(std::time::Duration::from_millis(1));
+        }
+        if !zombie(p.pid) {
+            fails.push(("MACHINERY".into(), "the main thread did not exit".into()));
+            return (case, fails, 0);
+        }
+        o.blamed = live.first().copied();
+        // a zombie leader is never seen stopped: keep the writer's (bounded) wait for that short
+        o.stop_timeout_ms = Some(200);
+    }
     let bytes = match dump_mem(p.pid, &o) {
         DumpResult::Ok(b) => b,
         DumpResult::Err(e) => {
@@ -278,7 +295,8 @@ fn run_regfiles_opt(files: &[RegFile], null_sp_threads: usize, optmode: u8) -> (
     let d = Dump::parse(&bytes);
     let soft = d.raw_bytes(&bytes, ST_MOZ_SOFT_ERRORS).map(|b| String::from_utf8_lossy(b).into_owned()).unwrap_or_default();
     // (a) completeness
-    let mut want: Vec<u32> = vec![p.pid as u32];
+    // (a zombie leader cannot be attached to: it is neither required nor forbidden in the list)
+    let mut want: Vec<u32> = if optmode == 8 { vec![] } else { vec![p.pid as u32] };
     want.extend(exp.iter().filter(|e| !e.skipped).map(|e| e.tid as u32));
     for w in &want {
         let n = d.threads.iter().filter(|t| t.tid == *w).count();
@@ -287,7 +305,7 @@ fn run_regfiles_opt(files: &[RegFile], null_sp_threads: usize, optmode: u8) -> (
         }
     }
     for t in &d.threads {
-        if !want.contains(&t.tid) {
+        if !want.contains(&t.tid) && !(optmode == 8 && t.tid == p.pid as u32) {
             let k = if exp.iter().any(|e| e.skipped && e.tid as u32 == t.tid) { "null-sp-thread-listed" } else { "unknown-thread-listed" };
             fails.push((k.into(), format!("thread {} is listed but should not be", t.tid)));
         }
@@ -615,6 +633,9 @@ pub fn run(ctx: &Ctx, rep: &mut Report) {
                 }
                 if nulls == 0 && (n == 3 || n == 8) && mix != 1 {
                     items.push((files.clone(), nulls, 7));
+                }
+                if nulls == 0 && (n == 2 || n == 3 || n == 8) {
+                    items.push((files.clone(), nulls, 8));
                 }
             }
         }
